@@ -655,7 +655,7 @@ def run(ctx):
     if not exe:
         C.violation(ctx, "build", {"kind": "harness-build-failed", "log": log[-3000:]}, True)
         return C.finish(ctx)
-    ncase = 80 if ctx.tier == "quick" else 1500
+    ncase = 60 if ctx.tier == "quick" else 1500
     cases = h1_case_set(ctx, ncase)
     res = run_h1_cases(ctx, exe, cases)
     nsteps = sum(len(d["impl"]) for d in res)
@@ -711,12 +711,12 @@ def run(ctx):
     if not okm:
         C.violation(ctx, "make", {"kind": "snapshot-build-failed", "log": mlog[-3000:]}, True)
     else:
-        nprog = 4 if ctx.tier == "quick" else 40
+        nprog = 3 if ctx.tier == "quick" else 40
         jobs = []
         for i in range(nprog):
             rng = ctx.rng
             nt = rng.randint(2, 5)
-            src, nf = gen_program(rng, nt, scale=rng.choice([4, 10, 20]))
+            src, nf = gen_program(rng, nt, scale=rng.choice([4, 10] if ctx.tier == "quick" else [4, 10, 20]))
             d = os.path.join(ctx.scratch, "e2e%d" % i)
             os.makedirs(d)
             open(os.path.join(d, "p.c"), "w").write(src)
